@@ -6,6 +6,7 @@ package c10
 import (
 	"io/fs"
 	"os"
+	"path/filepath"
 
 	"github.com/avfs/avfs"
 	"github.com/avfs/avfs/vfs/basepathfs"
@@ -16,6 +17,7 @@ import (
 )
 
 func init() {
+	sym.Register("c10.HAfterChdir", HAfterChdir)
 	sym.Register("c10.HCall", HCall)
 	sym.Register("c10.HNames", HNames)
 }
@@ -208,6 +210,57 @@ func HCall(op, abs, n int) {
 	}
 	sym.Assert(!hasPrefix(rv, B), "C10|"+label+"|result-reveals-base-path")
 	for _, x := range []string{"/", "/f", "/d", "/d/g", "/n", "/w", "/o"} {
+		sym.Assert(entry(V, x) == entry(S, x), "C10|"+label+"|tree-differs-from-standalone")
+	}
+}
+
+// HAfterChdir: Chdir("/d") through the wrapper (and on the standalone
+// reference), then one operation with a RELATIVE symbolic path.
+func HAfterChdir(op, n int) {
+	name := Ops[op]
+	p := sym.String("p", n)
+	for i := 0; i < len(p); i++ {
+		sym.Assume(p[i] != 0)
+	}
+	sym.Assume(len(p) == 0 || p[0] != '/')
+	base := hx.NewBareMemFS()
+	seedBase(base)
+	V := basepathfs.New(base, B)
+	S := hx.NewBareMemFS()
+	_ = S.RemoveAll("/w")
+	seedStandalone(S)
+	hx.Must(V.Chdir("/d"))
+	hx.Must(S.Chdir("/d"))
+	sym.Assume(len(p) > 0)
+	// where the relative path leads, lexically, from the working directory /d
+	cl := filepath.Clean("/d/" + p)
+	class := "above-cwd"
+	switch {
+	case cl == "/d":
+		class = "names-cwd"
+	case len(cl) > 3 && cl[:3] == "/d/":
+		class = "below-cwd"
+	}
+	label := "basepathfs|" + name + "|relative-after-chdir:" + class
+	sym.Label(label)
+	sym.Reach("after-chdir")
+	outside := func() string {
+		return entry(base, "/o") + ";" + entry(base, "/w/b") + ";" + entry(base, "/w") + ";" + entry(base, "/")
+	}
+	before := outside()
+	var cv int
+	var rv string
+	res := sym.Outcome(func() { cv, rv, _ = do(V, name, p, "/f", 0) })
+	sym.Assert(!res.Panicked, "C10|"+label+"|panic|"+res.Class+"|"+res.Site)
+	sym.Assert(outside() == before, "C10|"+label+"|something-outside-the-base-directory-changed")
+	if res.Panicked {
+		return
+	}
+	cs, rs, _ := do(S, name, p, "/f", 0)
+	sym.Observe("wrapper", cv)
+	sym.Assert(cv == cs, "C10|"+label+"|errno|wrapper-"+hx.CodeName(cv)+"|standalone-"+hx.CodeName(cs))
+	sym.Assert(rv == rs, "C10|"+label+"|result-differs-from-standalone")
+	for _, x := range []string{"/", "/f", "/d", "/d/g", "/d/n", "/n"} {
 		sym.Assert(entry(V, x) == entry(S, x), "C10|"+label+"|tree-differs-from-standalone")
 	}
 }
